@@ -380,8 +380,45 @@ fn run_jura(sc: &Value) -> Value {
     json!({ "snaps": snaps, "results": results, "datasets": dumps })
 }
 
+/// The crate's own in-process client (uistv1_client::TestClient) driving one AppState::single through the
+/// UistClient trait: only the responses are visible (its state is private), so the model follows in lockstep from
+/// the loading script of the dataset, with no re-synchronisation and no oracle.
+fn run_uclient(sc: &Value) -> Value {
+    use hu::uistv1_client::{TestClient, UistClient};
+    use crate::util::drive;
+    let d = &sc["datasets"][0];
+    let name = s(&d["name"]);
+    let mut p = Penelope::new();
+    for q in arr(&d["quotes"]) {
+        p.add_quote(bf(&q[0]), bf(&q[1]), i(&q[2]), s(&q[3]));
+    }
+    let mut c = TestClient::single(&name, p);
+    let mut results = Vec::new();
+    for op in arr(&sc["ops"]) {
+        let r = catch(|| match s(&op["op"]).as_str() {
+            "tick" => some_or_null(drive(c.tick(u(&op["id"]))).ok().map(|r| u_tick_json(r.has_next, &r.executed_trades, &r.inserted_orders))),
+            "fetch" => some_or_null(drive(c.fetch_quotes(u(&op["id"]))).ok().map(|r| row_json(&r.quotes))),
+            "init" => some_or_null(drive(c.init(s(&op["name"]))).ok().map(|r| Value::from(r.backtest_id))),
+            "insert" => some_or_null(drive(c.insert_order(uist_order_of(&op["order"]), u(&op["id"]))).ok().map(|_| Value::Null)),
+            "delete" => some_or_null(drive(c.delete_order(u(&op["order_id"]), u(&op["id"]))).ok().map(|_| Value::Null)),
+            "info" => some_or_null(drive(c.info(u(&op["id"]))).ok().map(|r| json!({"version": r.version, "dataset": r.dataset}))),
+            "now" => some_or_null(drive(c.now(u(&op["id"]))).ok().map(|r| json!({"now": r.now, "has_next": r.has_next}))),
+            _ => panic!("bad op"),
+        });
+        match r {
+            Ok(v) => results.push(v),
+            Err(m) => {
+                results.push(panic_json(&m));
+                break;
+            }
+        }
+    }
+    json!({ "results": results, "order_size": std::mem::size_of::<rotala::exchange::uist_v1::Order>() })
+}
+
 pub fn run(sc: &Value) -> Value {
     match s(&sc["kind"]).as_str() {
+        "uclient" => run_uclient(sc),
         "uist" => run_uist(sc),
         "jura" => run_jura(sc),
         _ => panic!("bad kind"),
